@@ -56,7 +56,7 @@ def run_engine(harnesses, tags, tier, conf, extra=()):
     out = tempfile.NamedTemporaryFile(prefix="gosym-", suffix=".json", delete=False)
     out.close()
     jobs = int(os.environ.get("VERIF_JOBS", "16"))
-    cmd = [GOSYM, "run", "-repo", REPO, "-harness-dir", HARNESS_DIR, "-tags", tags,
+    cmd = [GOSYM, "run", "-tier", tier, "-repo", REPO, "-harness-dir", HARNESS_DIR, "-tags", tags,
            "-harness", ",".join(harnesses), "-j", str(jobs), "-out", out.name,
            "-timeout-ms", str(conf.get("timeout_ms", 30000 if tier == "quick" else 300000)),
            "-max-wall", str(conf.get("max_wall", "600s" if tier == "quick" else "5h")),
@@ -137,6 +137,9 @@ func TestVerifReplay(t *testing.T) {
 '''
 
 
+CUR_TIER = "quick"  # tier of the run being replayed (harnesses see it through vthorough())
+
+
 def native_replay(cases, all_h, tags, race=False):
     """Run the given [{harness, values}] natively; returns list of result dicts (or None on build failure)."""
     if not cases:
@@ -155,7 +158,7 @@ def native_replay(cases, all_h, tags, race=False):
         ov = os.path.join(tmp, "overlay.json")
         with open(ov, "w") as f:
             json.dump({"Replace": rep}, f)
-        env = dict(GOENV, VERIF_REPLAY=cfile)
+        env = dict(GOENV, VERIF_REPLAY=cfile, VERIF_TIER=CUR_TIER)
         cmd = ["go", "test", "-tags", tags, "-vet=off", "-count=1", "-overlay", ov, "-run", "^TestVerifReplay$", "-timeout", "20m", "-v"]
         if race:
             cmd.append("-race")
@@ -227,6 +230,7 @@ def confirms(v, nat):
 
 
 def main():
+    global CUR_TIER
     ap = argparse.ArgumentParser()
     ap.add_argument("property", nargs="?")
     ap.add_argument("--tier", default=os.environ.get("VERIF_TIER", "quick"))
@@ -241,6 +245,7 @@ def main():
     if args.replay:
         rp = json.load(open(args.replay))
         tags = rp.get("tags", "verif")
+        CUR_TIER = rp.get("tier", "quick")
         all_h = list_harnesses(tags)
         res = native_replay([rp], all_h, tags)
         log(json.dumps(res, indent=1))
@@ -252,6 +257,7 @@ def main():
     pid = args.property
     conf = propconf.PROPS[pid]
     tier = args.tier
+    CUR_TIER = tier
     tconf = dict(conf.get("engine", {}))
     tconf.update(conf.get("engine_" + tier, {}))
     tagsets = conf.get("tagsets", ["verif"])
@@ -380,7 +386,7 @@ def main():
         seen_sig.add(sig)
         rp = os.path.join(VERIF, "evidence", "replay", "%s-%s-%s.json" % (pid, v["harness"], re.sub(r"\W+", "_", v["label"])))
         with open(rp, "w") as f:
-            json.dump({"property": pid, "harness": v["harness"], "tags": v["tags"], "values": v["values"],
+            json.dump({"property": pid, "harness": v["harness"], "tags": v["tags"], "tier": tier, "values": v["values"],
                        "nondets": v["nondets"], "violation": {"label": v["label"], "kind": v["kind"], "detail": v.get("detail", "")},
                        "native": v.get("native")}, f, indent=1)
         out_lines.append("VIOLATION property=%s replay=%s" % (pid, os.path.relpath(rp, VERIF)))
